@@ -337,6 +337,35 @@ def ir_lines(flavour):
     return d['lines'], lock_lines, multi
 
 
+_LA = {}
+
+
+def line_acts(flavour):
+    """first line of a statement -> its act in the IR"""
+    if flavour in _LA:
+        return _LA[flavour]
+    I = ir()
+    d = {}
+
+    def walk(s):
+        k = s[0]
+        if k in ('act', 'ret', 'if'):
+            d[s[1]] = s[2]
+        if k == 'seq':
+            [walk(x) for x in s[1]]
+        elif k == 'if':
+            [walk(x) for x in s[5] + s[6]]
+        elif k == 'loop':
+            [walk(x) for x in s[3]]
+        elif k == 'try':
+            [walk(x) for x in s[2] + (s[3][1] if s[3] else []) + s[4]]
+    if I:
+        for m in I[flavour]['methods'].values():
+            walk(m)
+    _LA[flavour] = d
+    return d
+
+
 def digest(flavour, raw):
     """raw engine result -> per thread per call [(line, code)], schedule (one thread number per model step)"""
     lines, lock_lines, multi = ir_lines(flavour)
@@ -594,27 +623,57 @@ def oracle_common(flavour, thread_ops, obs, check_serial):
                 if why:
                     return why
     if check_serial:
-        snap, rets, locked = serial_replay(flavour, thread_ops, obs)
-        fin = obs['final']
-        if sorted(map(tuple, snap['nodes'])) != sorted(map(tuple, fin['nodes'])):
-            a, b = len(fin['nodes']), len(snap['nodes'])
-            return 'concurrent run differs from the serial run in lock order: %d nodes instead of %d (node lost or misplaced)' % (a, b)
-        if snap['ctrs'] != fin['ctrs']:
-            return 'concurrent run differs from the serial run in lock order: counters %r instead of %r' % (fin['ctrs'], snap['ctrs'])
-        for tid, row in enumerate(obs['calls']):
-            for i, c in enumerate(row):
-                if (tid, i) in rets and rets[(tid, i)] != (c['out'], c['ret']):
-                    return 'call %s returned %r, serial run in lock order returns %r' % (c['op']['m'], (c['out'], c['ret']), rets[(tid, i)])
-        # ids handed out by add_blank_node_to_graph are distinct per graph (shared store: globally)
-        seen = set()
+        all_ops = [o for ops in thread_ops for o in ops]
+        # (1) ids handed out by add_blank_node_to_graph: the shared store never reuses an id; the disjoint store
+        #     only after the graph was emptied / replaced
+        seen = {}
         for tid, row in enumerate(obs['calls']):
             for c in row:
                 if c['op']['m'] == 'add_blank_node_to_graph' and c['ret'] is not None:
-                    key = (c['op']['g'] if flavour == 'disjoint' else '_', c['ret'])
-                    if key in seen and not any(o['m'] in ('del_graph', 'del_all_graphs', 'add_graph_direct', 'add_graph')
-                                               for ops in thread_ops for o in ops):
-                        return 'internal id %r handed out twice' % (key,)
-                    seen.add(key)
+                    g = c['op']['g']
+                    reset = flavour == 'disjoint' and any(o['m'] == 'del_all_graphs' or (o.get('g') == g and o['m'] in
+                                                          ('del_graph', 'add_graph_direct', 'add_graph')) for o in all_ops)
+                    key = (g if flavour == 'disjoint' else '_', c['ret'])
+                    if key in seen and not reset:
+                        return 'internal id %r handed out twice (%s)' % (c['ret'], 'graph ' + g if flavour == 'disjoint' else 'shared store')
+                    seen[key] = True
+        # (2) no insertion lost: without deleting / replacing calls the store holds every node that was added
+        deleting = any(o['m'] in ('del_graph', 'del_all_graphs', 'add_graph_direct') for o in all_ops)
+        # an import replaces (shared) or is skipped on (disjoint) an existing graph: the count is only predictable
+        # when an imported graph id is touched by nothing else (or, in the sequential setup thread, by nothing earlier)
+        safe = True
+        for t, ops in enumerate(thread_ops):
+            for i, o in enumerate(ops):
+                if o['m'] == 'add_graph':
+                    if t == 0:
+                        safe = safe and not any(o2.get('g') == o['g'] for o2 in ops[:i])
+                    else:
+                        safe = safe and not any(o2.get('g') == o['g'] and not (t2 == t and j == i)
+                                                for t2, ops2 in enumerate(thread_ops) for j, o2 in enumerate(ops2))
+        if not deleting and safe:
+            exp = 0
+            for row in obs['calls']:
+                for c in row:
+                    if c['out'] == 'ok' and c['op']['m'] == 'add_graph':
+                        exp += c['op']['k']
+                    if c['out'] == 'ok' and c['op']['m'] == 'add_blank_node_to_graph':
+                        exp += 1
+            if len(obs['final']['nodes']) != exp:
+                return 'a node was lost: %d nodes added by successful calls, %d in the store' % (exp, len(obs['final']['nodes']))
+        # (3) atomicity: when every call took the lock, the run must equal the serial run in lock order
+        took = all(any(cd == 1 for _, cd in c['events']) or c['op']['m'] == 'get_graph' for row in obs['calls'] for c in row)
+        if took:
+            snap, rets, locked = serial_replay(flavour, thread_ops, obs)
+            fin = obs['final']
+            if sorted(map(tuple, snap['nodes'])) != sorted(map(tuple, fin['nodes'])):
+                a, b = len(fin['nodes']), len(snap['nodes'])
+                return 'concurrent run differs from the serial run in lock order: %d nodes instead of %d (node lost or misplaced)' % (a, b)
+            if snap['ctrs'] != fin['ctrs']:
+                return 'concurrent run differs from the serial run in lock order: counters %r instead of %r' % (fin['ctrs'], snap['ctrs'])
+            for tid, row in enumerate(obs['calls']):
+                for i, c in enumerate(row):
+                    if (tid, i) in rets and rets[(tid, i)] != (c['out'], c['ret']):
+                        return 'call %s returned %r, serial run in lock order returns %r' % (c['op']['m'], (c['out'], c['ret']), rets[(tid, i)])
     return None
 
 
@@ -832,6 +891,22 @@ class Seq(Stream):
                 if c['flavour'] == 'disjoint' and cl['op']['m'] == 'add_graph' and any(l == 106 for l, _ in cl['events']):
                     h['early_return_dup'] += 1
         h['per_method'] = per
+        # statements reading the node map executed while the lock is not held (allowed by the data automaton:
+        # reads are outside the property; listed for the record)
+        ung = set()
+        I = ir()
+        for c, o in zip(cases, obs):
+            kinds = line_acts(c['flavour'])
+            for cl in o['calls'][0]:
+                held = False
+                for ln, cd in cl['events']:
+                    if cd == 1:
+                        held = True
+                    elif cd == 2:
+                        held = False
+                    elif not held and kinds.get(ln, '').split(' ')[0] in ('XRead', 'XTest'):
+                        ung.add('%s.%s:%d' % (c['flavour'], cl['op']['m'], ln))
+        h['unguarded_reads_observed'] = sorted(ung)
         return h
 
     def describe(self, case, obs):
@@ -966,7 +1041,7 @@ class Sched(Stream):
                 self.exhaustive_counts['%s/%s' % (fl, name)] = len(seen)
             for name, setup, threads in SCENARIOS3:
                 seen = set()
-                for pre, raw in (self.enumerate(fl, setup, threads, 1, False, cap=400) + self.enumerate(fl, setup, threads, 2, True, cap=600)
+                for pre, raw in (self.enumerate(fl, setup, threads, 1, False, cap=300) + self.enumerate(fl, setup, threads, 2, True, cap=400)
                                  if quick else self.enumerate(fl, setup, threads, 2, False, cap=20000)):
                     k = tuple(sorted(pre.items()))
                     if k in seen:
@@ -1159,17 +1234,23 @@ class C20(Check):
                 except OSError:
                     pass
             o = ' '.join(p.stdout.split())
-            bad = re.findall(r'\("(\w+)"%string, false, (Some \[[^\]]*\]|None), (\w+)\)', o)
-            badd = re.findall(r'\("(\w+)"%string, true, (?:Some \[[^\]]*\]|None), false\)', o)
-            nm = len(re.findall(r'"%string, (?:true|false), ', o))
+            tup = re.findall(r'\("(\w+)"%string, (true|false), (Some \[[^\]]*\]|None), (true|false)\)', o)
+            nsh = len(ir()['shared']['order']) if ir() else 0
+            names = [('shared.' if i < nsh else 'disjoint.') + t[0] for i, t in enumerate(tup)]
+            bad = [(n, t[2]) for n, t in zip(names, tup) if t[1] == 'false']
+            badd = [n for n, t in zip(names, tup) if t[3] == 'false']
+            nm = len(tup)
             out.append({'name': 'lock_ok holds for every regenerated method (witness path printed otherwise)',
                         'ok': p.returncode == 0 and not bad and nm >= 2,
-                        'detail': {'failing': [{'method': m, 'witness_path': w} for m, w, _ in bad], 'methods': nm}})
+                        'detail': {'failing': [{'method': m, 'witness_path': w} for m, w in bad], 'methods': nm}})
             out.append({'name': 'data_ok (counter discipline) holds for every regenerated method',
-                        'ok': p.returncode == 0 and not badd and not bad,
+                        'ok': p.returncode == 0 and not badd and nm >= 2,
                         'detail': {'failing': badd}})
-            m = re.search(r'= \(\[(.*)\]\)\s*: list', o)
-            self.assumed_lines = o[o.rfind('= (['):][:1500] if '= ([' in o else ''
+            tail = o[o.rfind('= (['):] if '= ([' in o else ''
+            assumed = [(m, [int(x) for x in re.findall(r'\d+', ls)]) for m, ls in re.findall(r'\("(\w+)"%string, \[([^\]]*)\]\)', tail)]
+            out.append({'name': 'statements outside any try (assumed non-raising; between acquire and release they are the attack targets) listed from the regenerated IR',
+                        'ok': p.returncode == 0 and len(assumed) >= 2,
+                        'detail': {'fnever_lines (shared methods, then disjoint methods)': [a for a in assumed if a[1]]}})
         except Exception as e:
             out.append({'name': 'static checker evaluation', 'ok': False, 'detail': repr(e)})
         return out
